@@ -144,6 +144,9 @@ func genSlow(t *core.Tape, p *CallPlan, sc *Scenario) {
 func genC14(t *core.Tape, tier string) *Scenario {
 	sc := &Scenario{Prop: "C14", Notes: map[string]int{}}
 	sc.PoolFIFO = t.Bool(1, 4, "poolfifo")
+	if t.Bool(1, 6, "pooldrop") {
+		sc.PoolDrop = uint32(1 + t.Choose(1<<20, "pooldrop.seed"))
+	}
 	h := HandlerCfg{}
 	c := ClientCfg{Proto: genProto(t), JSON: t.Bool(1, 4, "json")}
 	if t.Bool(1, 4, "gzip") {
